@@ -117,8 +117,8 @@ def _step_devs(lab, st):
     return devs
 
 
-def _witness_paths(g, init):
-    """For every deviation a shortest path to the first step (transition + state reached) that exhibits it."""
+def _witness_paths(g, init, devs):
+    """For every deviation of `devs` a shortest path to the first step (transition + state reached) that exhibits it."""
     outs = {}
     for i, (s, _, _) in enumerate(g.edges):
         outs.setdefault(s, []).append(i)
@@ -129,7 +129,7 @@ def _witness_paths(g, init):
         u = dq.popleft()
         for i in outs.get(u, []):
             _, v, lab = g.edges[i]
-            new = _step_devs(lab, g.states[v]) - set(found)
+            new = (_step_devs(lab, g.states[v]) & devs) - set(found)
             if new:
                 path = [i]
                 w = u
@@ -151,7 +151,7 @@ def _probe(work):
     devs = set(ALL_DEV)
     for _ in range(len(ALL_DEV) + 1):
         res, g, init = _export("DrillholeConcatProbe.cfg", sorted(devs), work)
-        wit = _witness_paths(g, init)
+        wit = _witness_paths(g, init, devs)
         if set(wit) != devs:
             raise MachineryError(f"probe graph has no witness for {sorted(devs - set(wit))}")
         paths = sorted({tuple(p) for p in wit.values()})
@@ -163,7 +163,7 @@ def _probe(work):
         for it, r in zip(items, out):
             k = r["mismatch_step"]
             if k is not None and k <= len(it["steps"]):
-                absent |= _step_devs(it["steps"][k - 1]["edge"], it["steps"][k - 1]["state"])
+                absent |= _step_devs(it["steps"][k - 1]["edge"], it["steps"][k - 1]["state"]) & devs
         if not absent:
             return devs
         devs -= absent
